@@ -130,6 +130,26 @@ pub fn arm_name(a: Forced) -> &'static str {
 
 pub const FORCED: [Forced; 3] = [Forced::Generic, Forced::Sse2, Forced::Avx2];
 
+thread_local! {
+    /// Extra sequence rows of the striped sequence handed to the scoring kernels: the sequence is re-laid out in a
+    /// matrix with this many more rows than necessary (position i at row i mod R', column i div R') and wrapped
+    /// with `StripedSequence::new`, which accepts any matrix large enough for the length.
+    pub static SPARE_ROWS: std::cell::Cell<usize> = const { std::cell::Cell::new(0) };
+}
+
+/// Re-lay `s` out with `spare` additional sequence rows (no look-ahead rows yet).
+pub fn respread<A: Alphabet, C: PositiveLength>(s: StripedSequence<A, C>, syms: &[A::Symbol], spare: usize) -> StripedSequence<A, C> {
+    if spare == 0 {
+        return s;
+    }
+    let rows = s.matrix().rows() - s.wrap() + spare;
+    let mut m = DenseMatrix::<A::Symbol, C>::new(rows);
+    for (i, &x) in syms.iter().enumerate() {
+        m[i % rows][i / rows] = x;
+    }
+    StripedSequence::new(m, syms.len()).expect("StripedSequence::new rejected a matrix with spare rows")
+}
+
 // ---------------------------------------------------------------------------
 // Scoring (f32)
 // ---------------------------------------------------------------------------
@@ -179,7 +199,7 @@ where
     Pipeline<A, Dispatch>: Score<f32, A, C>,
     Pipeline<Dna, Dispatch>: Maximum<f32, C>,
 {
-    let mut striped: StripedSequence<A, C> = pt.stripe(syms);
+    let mut striped: StripedSequence<A, C> = respread(pt.stripe(syms), syms, SPARE_ROWS.with(|x| x.get()));
     match wrap_override {
         Some(w) => striped.configure_wrap(w),
         None => striped.configure(pssm),
@@ -301,7 +321,7 @@ where
     PT: Stripe<A, C>,
     PS: Score<f32, A, C>,
 {
-    let mut striped: StripedSequence<A, C> = pt.stripe(syms);
+    let mut striped: StripedSequence<A, C> = respread(pt.stripe(syms), syms, SPARE_ROWS.with(|x| x.get()));
     match wrap_override {
         Some(w) => striped.configure_wrap(w),
         None => striped.configure(pssm),
@@ -648,6 +668,15 @@ impl ECfg {
     }
     pub fn from_name(s: &str) -> Option<ECfg> {
         ALL_ECFGS.iter().cloned().find(|c| c.name() == s)
+    }
+    /// the dispatcher arm of the three dispatching configurations
+    pub fn arm(&self) -> Option<Forced> {
+        match self {
+            ECfg::DispGen => Some(Forced::Generic),
+            ECfg::DispSse => Some(Forced::Sse2),
+            ECfg::DispAvx => Some(Forced::Avx2),
+            _ => None,
+        }
     }
 }
 
